@@ -108,6 +108,52 @@ func genC06(tier, out string, sum *Summary) {
 			}
 		}
 	}
+	opaqueFamily(sum, "reuse")
+	// nil slices and maps inside the caller's data stay what they are (a result may alias them; nothing may be
+	// written back), and operators applied to the caller's arrays, strings and objects leave them alone
+	{
+		mk := func() map[string]any {
+			backing := []any{"a", "b", "guard-1", "guard-2"}
+			return map[string]any{"tags": []any(nil), "meta": map[string]any(nil), "rows": []any{[]any(nil), map[string]any(nil), nil, []any{}}, "xs": withSpare([]any{"a", "b", "c"}), "ys": []any{"Y"}, "ws": []any{"W"}, "pre": backing[:2], "s": "abc", "o": map[string]any{"k": []any(nil)}}
+		}
+		for _, text := range []string{"@", "tags", "meta", "rows", "rows[0]", "rows[*]", "[tags, meta]", "{t: tags, m: meta}", "o", "o.k", "not_null(tags, meta)", "tags || meta", "rows[?!@]", "values(@)", "to_array(tags)", "merge(@, o)", "rows[]", "map(&@, rows)",
+			"xs + ys", "xs + ws", "[xs + ys, xs + ws]", "pre + ys", "xs - ys", "xs * ys", "s + s", "o + o", "xs || ys", "xs && ys", "[xs, ys][]", "merge(o, o)", "xs | [@, @][]", "zip(xs, pre)", "sort(pre)", "reverse(pre)", "pre[::-1]", "join('', pre)"} {
+			x, err := jmespath.Compile(text)
+			if err != nil {
+				continue
+			}
+			doc := mk()
+			before := snapshot(doc)
+			var results []any
+			var snaps []any
+			for k := 0; k < 4; k++ {
+				var o Obs
+				if k%2 == 0 {
+					o = observe(func() (any, error) { return x.Search(doc) })
+				} else {
+					o = search(text, doc)
+				}
+				sum.count("nil-collections-and-operators")
+				fresh := search(text, mk())
+				if !sameObs(o, fresh, strings.Contains(text, "values(")) {
+					sum.direct("reuse", text, doc, fmt.Sprintf("call %d gives %s, a fresh search on fresh data gives %s", k, describe(o), describe(fresh)))
+				}
+				if !reflect.DeepEqual(before, snapshot(doc)) {
+					sum.direct("mutation", text, mk(), fmt.Sprintf("call %d modified the caller's document (nil collections, spare capacity or elements)", k))
+					break
+				}
+				if o.Kind == "val" {
+					results = append(results, o.Value)
+					snaps = append(snaps, snapshotResult(o.Value))
+				}
+				for i := range results {
+					if !reflect.DeepEqual(snaps[i], snapshotResult(results[i])) {
+						sum.direct("stale-result", text, mk(), fmt.Sprintf("the result of earlier call %d changed after call %d", i, k))
+					}
+				}
+			}
+		}
+	}
 	// MustCompile panics exactly when Compile fails: every static fault of the error-contract catalogue
 	// (syntax, arity, unknown function, expression-reference position, slice step) and every run-time one
 	for _, f := range c08Faults() {
@@ -296,6 +342,30 @@ func genC07(tier, out string, sum *Summary) {
 		fixed = append(fixed, "b[?contains("+long+", @)]", "contains("+long+", b[0])", "[contains("+long+", 'n7'), contains("+long+", 'zz'), contains("+long+", c)]", "sort("+long+")[0]", "length("+long+")", "a[?contains("+longNums+", @)]", "max("+longNums+") + c",
 			"join(',', "+long+") | length(@)", "sort_by("+long+", &@)[-1]", long+"[?@ == $.b[0]]", "group_by("+long+", &@) | length(@)", "reverse("+long+")[0]", "contains("+long+", 'n7') && contains(b, b[0])")
 	}
+	// operators on arrays and strings of the document (whatever they answer, the document is only read)
+	fixed = append(fixed, "a + b", "b + a", "a + [c]", "[a + b, a + a]", "b + b", "a - a", "a * b", "o + o", "[a, b][] + a", "a || b", "a + a | length(@)")
+	// comparisons of large containers of ONE shared document by all goroutines at once: whatever bookkeeping a
+	// comparison keeps while it runs belongs to the call
+	bigTexts := []string{"l == r", "l != r", "w == w2", "contains([r, `1`], l)", "l == l && r == r", "[l] == [r]", "l[?@ == `-1`]", "{p: l} == {p: r}"}
+	var bigShared map[string]any
+	{
+		n := 8000
+		if tier == "thorough" {
+			n = 60000
+		}
+		l, r := make([]any, n), make([]any, n)
+		for i := range l {
+			l[i] = json.Number(strconv.Itoa(i))
+			r[i] = l[i]
+		}
+		r[n-1] = json.Number("-1")
+		bigShared = map[string]any{"l": l, "r": r, "w": map[string]any{"p": l}, "w2": map[string]any{"p": r}}
+	}
+	isBig := map[string]bool{}
+	for _, t := range bigTexts {
+		isBig[t] = true
+	}
+	fixed = append(fixed, bigTexts...)
 	// every combination of two constructs (a sample in the quick tier), each goroutine on its own document
 	var ssItems []ssCase
 	for i, sc := range smallScope(ssCfg{funcs: true, lets: true, bools: true}, 1, 0) {
@@ -329,7 +399,9 @@ func genC07(tier, out string, sum *Summary) {
 		shared := genDocWide()
 		for w := range docs {
 			docs[w] = shared
-			if ssDocsW != nil {
+			if isBig[text] {
+				docs[w] = bigShared
+			} else if ssDocsW != nil {
 				docs[w] = ssDocsW[w]
 			} else if i%2 == 1 || i < len(fixed) {
 				if e != nil {
